@@ -188,6 +188,9 @@ func (t *TrafBox) Info(w io.Writer, specificBoxLevels, indent, indentStep string
 // Only look at first trun, even if there is more than one
 // Don't optimize again, if already done so that no data is present
 func (t *TrafBox) OptimizeTfhdTrun() error {
+	if t == nil || t.Tfhd == nil || t.Trun == nil {
+		return errors.New("no traf, tfhd or trun to optimize")
+	}
 	tfhd := t.Tfhd
 	trun := t.Trun
 	if len(trun.Samples) == 0 {
